@@ -259,6 +259,19 @@ let () =
                       Heap (c, ref heap_init_state, ref ha_init_state, ref (heap_cfg_big_enough c))
           | _ -> failwith "kind" in
         Hashtbl.replace insts name i
+    | "gcrereg" :: p :: newsize :: rest ->
+        (* GcRereg.v: table = the entries after "T" (address size ...), the collection inside step keeps the addresses after "S" and
+           compacts the node array; prints the size the model has registered for p afterwards *)
+        let rec split_at_s acc = function
+          | "S" :: r -> (List.rev acc, r)
+          | x :: r -> split_at_s (x :: acc) r
+          | [] -> (List.rev acc, []) in
+        let (tt, ss) = split_at_s [] (match rest with "T" :: r -> r | r -> r) in
+        let rec pairs = function a :: b :: r -> (z_of_dec a, z_of_dec b) :: pairs r | _ -> [] in
+        let surv = List.map z_of_dec ss in
+        let step tbl = List.filter (fun (a, _) -> List.mem a surv) tbl in
+        let res = reregister_inplace rEREGISTER_SIZE_BEFORE_STEP step (pairs tt) (z_of_dec p) (z_of_dec newsize) in
+        print_string ((match lookup (z_of_dec p) res with Some sz -> dec_of_z sz | None -> "none") ^ "\n")
     | name :: op :: args ->
         (match Hashtbl.find_opt insts name with
          | None -> print_string "?inst\n"
